@@ -43,6 +43,11 @@ func (c *Conn) Sendfile(f *os.File, remain int64) (int64, error) {
 	if (remain <= 0) || (remain > size-offset) {
 		remain = size - offset
 	}
+	if remain <= 0 {
+		// nothing to send: an entry without bytes must not be queued,
+		// flush would never get past it.
+		return 0, nil
+	}
 
 	// f.Fd() will set the fd to blocking mod.
 	// We need to set the fd to non-blocking mod again.
